@@ -185,7 +185,7 @@ fn check(c: &Case, st: &mut Stats) -> CheckResult {
 fn build_cases(cfg: &Cfg) -> Vec<Case> {
     let cat = prelude_catalogue();
     let mut cases = vec![];
-    let reps = cfg.tier.pick(4u64, 30u64);
+    let reps = cfg.tier.pick(12u64, 60u64);
     for (pi, (ua, ub)) in cat.same_dimension_pairs().into_iter().enumerate() {
         for rep in 0..reps {
             let salt = splitmix64(cfg.seed ^ (pi as u64) << 8 ^ rep);
